@@ -237,6 +237,22 @@ def handle (args : List String) : String :=
     | some fs, some req, some cov, some tiles, some b =>
       showO showTiles (stream (memSrc tiles cov) (mkParams fs req) b)
     | _, _, _, _, _ => "bad-op"
+  | ["fault", fs, req, cov, tiles, victim, probe] =>
+    -- a conversion with an active transcode over a source holding undecodable tiles (`victim`,
+    -- `*` = every tile: mislabelled source compression): the recompressor fails on them
+    match parseFlags fs, parseOptPyr req, BBoxProto.parsePyr cov, parseCoords tiles, parseCoord probe with
+    | some fs, some req, some cov, some tiles, some probe =>
+      let bad : Coord → Bool :=
+        if victim == "*" then fun _ => true
+        else match parseCoord victim with
+          | some v => fun c => c == v
+          | none => fun _ => false
+      let p : Params Coord := ⟨req, fs.1, fs.2, fun v => if bad v then none else some v⟩
+      let w := showO (fun (r : Pyramid × List (Coord × Coord)) => showTiles r.2) (walk (memSrc tiles cov) p)
+      let l := showO (fun (o : Option Coord) => match o with | some v => showCoord v | none => "none")
+        (lookup (memSrc tiles cov) p probe)
+      s!"walk={w} look={l}"
+    | _, _, _, _, _ => "bad-op"
   | ["walk", fs, req, cov, tiles] =>
     match parseFlags fs, parseOptPyr req, BBoxProto.parsePyr cov, parseCoords tiles with
     | some fs, some req, some cov, some tiles =>
